@@ -37,7 +37,8 @@ def run(tier, seed, replay=None):
     if ra.violated != "NoDeadlock":
         raise vlib.Inconclusive("the as-found lock model did not exhibit the deadlock: exit %s\n%s" % (ra.exit, ra.output[-1500:]))
     wit = vlib.witnesses(SPEC, "ControlSession_lines.cfg", ["W_NoDiskOnlyJson"] if quick else ["W_NoLenient", "W_NoError2", "W_NoDiskOnlyJson"], wd, workers=1)
-    wit += vlib.witnesses(SPEC, "ControlSession_sess_quick.cfg", ["W_NoRescanDone"] if quick else ["W_NoRescanDone", "W_NoTwoBusy"], wd, workers=4)
+    if not quick:
+        wit += vlib.witnesses(SPEC, "ControlSession_sess_quick.cfg", ["W_NoRescanDone", "W_NoTwoBusy"], wd, workers=4)
     lines = os.path.join(rl.dir, "lines.ndjson")
     sessions = os.path.join(rs.dir, "sessions.ndjson")
     nlines = sum(1 for _ in open(lines))
@@ -47,7 +48,7 @@ def run(tier, seed, replay=None):
     vctl = vlib.build_harness("vctl")
     args = ["c08", "-lines", lines, "-sessions", sessions, "-receptor", vctl_common.receptor_copy(wd), "-work", wd, "-seed", str(seed)]
     if quick:
-        args += ["-instances", "2", "-pairmode", "split", "-budget", "60s"]
+        args += ["-instances", "2", "-pairmode", "split", "-budget", "45s"]
     else:
         args += ["-instances", "6", "-pairmode", "both", "-allwedges", "-budget", "800s"]
     if replay:
